@@ -154,6 +154,33 @@ def renderBSeg (s : List Char) : BSeg → List Char
 
 def stepSites (w : List String) : Option String :=
   match w with
+  | ["rw", spec] =>
+    -- rows separated by ';': "<r>,<cell>,…", cell = "<col|-|B>:<v|n>"
+    let toks : Option (List Tok) := if spec = "-" then some [] else
+      (spec.splitOn ";").foldlM (fun (acc : List Tok) (rs : String) =>
+        match rs.splitOn "," with
+        | [] => none
+        | h :: cs => match h.toInt? with
+          | none => none
+          | some r =>
+            (cs.foldlM (fun (a : List Tok) (c : String) => match c.splitOn ":" with
+              | [k, v] =>
+                if k = "B" then some (a ++ [Tok.cell none true (v = "v")])
+                else if k = "-" then some (a ++ [Tok.cell none false (v = "v")])
+                else (k.toInt?).map fun n => a ++ [Tok.cell (some n) false (v = "v")]
+              | _ => none) (acc ++ [Tok.row r])).map (· ++ [Tok.other])) []
+    match toks with
+    | some ts =>
+      let ts := ts ++ [Tok.endData]
+      let (lens, e) := getRowsIter (Facts.TotalRows + 2 * ts.length + 2) { cur := 0, seek := 0, held := none, toks := ts } []
+      let trimmed := (lens.reverse.dropWhile (· == 0)).reverse
+      some ((if e then "E_MAXROWS " else "ok ") ++ (if trimmed.isEmpty then "-" else ",".intercalate (trimmed.map toString)))
+    | none => some "bad-op"
+  | ["ic", vm, nBk, rc, v, nRv] =>
+    match vm.toNat?, nBk.toInt?, rc.toNat?, v.toInt?, nRv.toNat? with
+    | some vm, some nBk, some rc, some v, some nRv =>
+      some (showO (fun (_ : Bool) => "ok") (imageCellRel vm (optN nBk) (fun _ => rc) v nRv))
+    | _, _, _, _, _ => some "bad-op"
   | ["gr", flags] =>
     some (showO (fun (n : Nat) => "ok " ++ toString n) (getRows (if flags = "-" then [] else flags.toList.map (· == '1'))))
   | ["bs", h] =>
